@@ -103,8 +103,11 @@ def run(ctx):
     un = one(bound_names(fn, lambda t, n: t in ("self.inventories._index", "self.inventories")), "unstacked_inventories = self.inventories._index", where)
     pres = one(bound_names(fn, lambda t, n: t.startswith(f"{un}.get_parent_map(")), "present_inventories = <own index>.get_parent_map(...)", where)
     mt = one(bound_names(fn, lambda t, n: t == "set()"), "missing_texts = set()", where)
-    report = {f"{{('inventories', rev_id) for rev_id, in {par}}}"} | set(bound_names(fn, lambda t, n: t == f"{{('inventories', rev_id) for rev_id, in {par}}}"))
-    full = [n.id for n in g.nodes if n.kind == "stmt" and isinstance(n.ast, ast.Return) and n.ast.value is not None and norm(n.ast.value) in report]
+    import re as _re
+
+    rep_rx = _re.compile(r"\{\('inventories', (\w+)\) for \1, in " + _re.escape(par) + r"\}")
+    report = set(bound_names(fn, lambda t, n: rep_rx.fullmatch(t) is not None))
+    full = [n.id for n in g.nodes if n.kind == "stmt" and isinstance(n.ast, ast.Return) and n.ast.value is not None and (norm(n.ast.value) in report or rep_rx.fullmatch(norm(n.ast.value)))]
     ctx.require(len(empties) == 3 and full, f"{where}: expected 3 empty returns and the reporting returns, found {len(empties)} / {len(full)}")
     env = {"not self._format.supports_external_lookups": False, f"len({par}) == 0": False, f"not {par}": False, f"not {mt}": False, f"len({mt}) == 0": False}
     g2 = g.assume(env)
